@@ -80,7 +80,7 @@ func (c Call) String() string {
 
 func twoPaths(op string) bool {
 	switch op {
-	case "copy", "move", "copytofile", "copytodir":
+	case "copy", "move", "copytofile", "copytodir", "movebetween":
 		return true
 	}
 	return false
@@ -407,6 +407,20 @@ func (b *backend) run1(ctx context.Context, c Call) (r Result) {
 		r.Err = errKind(fs.CopyToDirectoryWithContext(ctx, p, q))
 	case "move":
 		r.Err = errKind(fs.MoveWithContext(ctx, p, q))
+	case "movebetween": // MoveBetweenFS with the same file system on both sides
+		r.Err = errKind(filesystem.MoveBetweenFS(ctx, fs, p, fs, q))
+	case "createfile": // CreateFile + Close
+		f, err := fs.CreateFile(p)
+		r.Err = errKind(err)
+		if f != nil {
+			_ = f.Close()
+		}
+	case "openfile": // OpenFile(O_WRONLY|O_CREATE) + Close: creates a missing file, leaves an existing one as it is
+		f, err := fs.OpenFile(p, os.O_WRONLY|os.O_CREATE, 0o644)
+		r.Err = errKind(err)
+		if f != nil {
+			_ = f.Close()
+		}
 	case "relpath":
 		// path conversion: root-relative form of an absolute path, then back
 		xs, err := fs.ConvertToRelativePath(b.root, p)
